@@ -4,6 +4,14 @@ import json, os
 V = os.path.dirname(os.path.dirname(os.path.abspath(__file__)))
 
 CLAIMED = {
+ 'C11': dict(
+  text='Static decision of the structural clauses of WebSocket framing: the 64-bit wire length reaches int only through a dominating range '
+       'check, send/receive agree on the RFC 6455 header (length-form boundaries evaluated at 125/126/65535/65536, markers, widths, bit masks, '
+       'network byte order), opcode coverage, message completion only on FIN data frames or close, per-frame payload buffer, 4 bytes of slack '
+       'before word-wise unmasking, accept-key derivation with the RFC GUID, _clients under its mutex. '
+       'Byte-identical in-order delivery for all sizes is not decided.',
+  technique='dominating-guard (range check) queries, expression evaluation of header-form conditions at boundary values and over the opcode domain, constant/protocol table agreement over the resolved AST',
+  ref='DESIGN.md section 3 C11'),
  'C14': dict(
   text='Static decision of the accept/serve/stop protocol shape: per accepted socket exactly one hand-over (inline serve or one handler thread) '
        'with the in-flight counter incremented before it on every path, handler and sequential branch run serve-close-decrement once in order '
